@@ -15,9 +15,9 @@ git apply $OUT/patch$N.diff
 SUITE=$(cargo test --offline 2>&1 | grep -E "^test result" | tr '\n' ';')
 SUITE_OK=$(echo "$SUITE" | grep -c "FAILED")
 cp $OUT/demo$N.rs tests/seed_demo.rs
-DEMO_WITH=$(cargo test --offline --test seed_demo 2>&1 | grep -E "^test result" | head -1)
+DEMO_WITH=$(cargo test --offline ${DEMO_FLAGS:-} --test seed_demo 2>&1 | grep -E "^test result" | head -1)
 git checkout -q -- src
-DEMO_WITHOUT=$(cargo test --offline --test seed_demo 2>&1 | grep -E "^test result" | head -1)
+DEMO_WITHOUT=$(cargo test --offline ${DEMO_FLAGS:-} --test seed_demo 2>&1 | grep -E "^test result" | head -1)
 rm -f tests/seed_demo.rs; git checkout -q -- .
 echo "suite with patch : $SUITE"
 echo "demo with patch  : $DEMO_WITH"
